@@ -318,6 +318,21 @@ class Builtins:
             return SV(v.ty, v.term)  # a copy: value semantics
         return self.cdb.externals.dict_from_pairs(it, v, fr)
 
+    def b_Counter(self, it, args, kwargs, fr):
+        """collections.Counter(seq) as an uninterpreted function of the sequence (assumed library function):
+        a dict from element to int; nothing else is known about it."""
+        if len(args) != 1 or kwargs:
+            raise Unsupported("Counter() shape")
+        v = it.force(args[0], fr) if not fr.pure else args[0]
+        if isinstance(v, (PyList, PyTuple)):
+            v = it.seq_of(v)
+        if not (isinstance(v, SV) and isinstance(v.ty, TSeq)):
+            raise Unsupported("Counter() of a non-sequence")
+        rt = TDict(v.ty.elem, TInt)
+        f = z3.Function("counter_of_" + str(v.ty.elem.sort()).replace(" ", "_"), v.ty.sort(), rt.sort())
+        it.notes.add("collections.Counter: uninterpreted function of the sequence (assumed library function)")
+        return SV(rt, f(v.term))
+
     def b_defaultdict(self, it, args, kwargs, fr):
         if len(args) == 1 and isinstance(args[0], VBuiltin) and args[0].name == "list":
             return VGen("emptydefaultdict")
